@@ -9,13 +9,16 @@ import (
 )
 
 // VerifC07IteratorSync: acknowledgements are forwarded once per sequence number, after every leaseholder
-// answered, and report success only when every leaseholder succeeded; data responses pass through.
+// answered; data responses pass through. The merged acknowledgement is what a single store holding all the
+// channels reports for the same command: the storage engine reports success when the command succeeded for any
+// of its channels (cesium streamIterator.exec*), so the merge over leaseholders is the disjunction — a
+// leaseholder whose channels are exhausted must not end a traversal that still returns samples elsewhere.
 func VerifC07IteratorSync() {
 	n := verifLen("nodes", 1, verifParam("nodes", 3))
 	s := &synchronizer{nodeCount: n}
 	ctx := context.Background()
 	for round := 1; round <= 2; round++ {
-		all := true
+		any := false
 		anyErr := false
 		for i := 0; i < n; i++ {
 			if round == 1 && verifBool("data-interleaved") {
@@ -23,8 +26,8 @@ func VerifC07IteratorSync() {
 				verifAssert("data-passes-through", ok && d.Variant == ResponseVariantData)
 			}
 			r := Response{Variant: ResponseVariantAck, SeqNum: round, Ack: verifBool("ack"), Command: CommandNext}
-			if !r.Ack {
-				all = false
+			if r.Ack {
+				any = true
 			}
 			if round == 1 && verifBool("failed") {
 				r.Error = errors.New("remote iterator failed")
@@ -38,7 +41,7 @@ func VerifC07IteratorSync() {
 			}
 			verifAssert("sync-forwarded-when-complete", ok)
 			verifObserveBool("out.ack", out.Ack)
-			verifAssert("sync-ack-is-conjunction", out.Ack == all && out.SeqNum == round)
+			verifAssert("sync-ack-is-what-one-store-over-all-channels-reports", out.Ack == any && out.SeqNum == round)
 			verifAssert("sync-error-reported-iff-any-failed", (out.Error != nil) == anyErr)
 		}
 	}
